@@ -37,7 +37,7 @@ void profile_mirror(RunCtx& ctx)
 {
     Rng rng{ctx.run_seed};
     GenCfg cfg;
-    Model m = small_or_drawn_model(ctx, rng, cfg);
+    Model m = small_or_drawn_model(ctx, rng, cfg, true, true);
     XmlKnobs kn = draw_knobs(rng);
     std::string family = "plain";
     if (ctx.family == "comment-in-text") {
@@ -79,6 +79,7 @@ void profile_mirror(RunCtx& ctx)
         CallSpec c;
         c.entry = e;
         c.backend = rng.chance(0.8) ? B_DOC : B_BUILDER;
+        c.newxta = !m.old_syntax;
         c.bytes = xml;
         c.sched = ctx.draw_sched(rng, false);
         c.ceiling = default_ceiling(xml.size());
@@ -145,7 +146,7 @@ void profile_twin(RunCtx& ctx)
 {
     Rng rng{ctx.run_seed};
     GenCfg cfg;
-    Model m = small_or_drawn_model(ctx, rng, cfg);
+    Model m = small_or_drawn_model(ctx, rng, cfg, true, true);
     m.queries.clear();
     // optional seeded semantic error so that diagnostics are compared too
     std::string seeded;
@@ -181,7 +182,8 @@ void profile_twin(RunCtx& ctx)
         bool has_dyn = false;
         for (auto& t : m.templs)
             has_dyn |= t.dynamic;
-        if (!(f == MF_DUP_TEMPLATE_NAME && has_dyn) && apply_model_fault(m, f, rng)) {
+        // (the old syntax has no empty process body)
+        if (!(f == MF_DUP_TEMPLATE_NAME && has_dyn) && !(f == MF_EMPTY_TEMPLATE && m.old_syntax) && apply_model_fault(m, f, rng)) {
             if (f == MF_DUP_LOC_NAME) {
                 // XTA attaches urgent/commit flags by name, XML by element: for namesakes only "no flag" means the same in both
                 for (auto& t : m.templs)
@@ -223,6 +225,7 @@ void profile_twin(RunCtx& ctx)
         CallSpec c;
         c.entry = sd.entry;
         c.backend = B_DOC;
+        c.newxta = !m.old_syntax;
         c.bytes = *sd.bytes;
         c.sched = ctx.draw_sched(rng, false);
         c.ceiling = default_ceiling(c.bytes.size());
